@@ -424,6 +424,16 @@ impl TulispObject {
         self.rc.as_ptr() as usize
     }
 
+    /// The address that stands for `self` under `eq`: the private cell a
+    /// closure keeps for a captured variable is `eq` to the symbol it was made
+    /// from, everything else only to itself.
+    pub(crate) fn eq_addr_as_usize(&self) -> usize {
+        if let TulispValue::LexicalBinding { symbol, .. } = &*self.inner_ref() {
+            return symbol.eq_addr_as_usize();
+        }
+        self.addr_as_usize()
+    }
+
     pub(crate) fn clone_without_span(&self) -> Self {
         Self {
             rc: Rc::clone(&self.rc),
